@@ -15,6 +15,7 @@ use deno_ast::swc::ast::{
   VarDeclOrExpr, WhileStmt, WithStmt,
 };
 use deno_ast::swc::atoms::Atom;
+use deno_ast::swc::common::SyntaxContext;
 use deno_ast::swc::ecma_visit::noop_visit_type;
 use deno_ast::swc::ecma_visit::{Visit, VisitWith};
 use deno_ast::swc::utils::find_pat_ids;
@@ -82,7 +83,11 @@ type Scope = Rc<RefCell<RawScope>>;
 #[derive(Debug)]
 struct RawScope {
   parent: Option<Scope>,
-  variables: BTreeMap<Atom, SourceRange>,
+  /// Declarations by name. The syntax context tells apart same-named bindings
+  /// that this collector places in one table (e.g. a `let` in a TS namespace
+  /// block) and keeps references to a shadowing `var`/`const`/`class`/`function`
+  /// from being attributed to an outer `let` of the same name.
+  variables: BTreeMap<Atom, Vec<(SyntaxContext, SourceRange)>>,
 }
 
 impl RawScope {
@@ -114,7 +119,14 @@ fn get_decl_by_ident(scope: Scope, ident: &Ident) -> Option<DeclInfo> {
   let mut cur_scope = Some(scope);
   let mut is_current_scope = true;
   while let Some(cur) = cur_scope {
-    if let Some(&range) = cur.borrow().variables.get(&ident.sym) {
+    let found = cur.borrow().variables.get(&ident.sym).and_then(|decls| {
+      decls
+        .iter()
+        .rev()
+        .find(|(ctxt, _)| *ctxt == ident.ctxt)
+        .map(|&(_, range)| range)
+    });
+    if let Some(range) = found {
       return Some(DeclInfo {
         range,
         in_other_scope: !is_current_scope,
@@ -276,7 +288,11 @@ impl VariableCollector {
   fn insert_var(&mut self, ident: &Ident, status: VarStatus) {
     self.var_groups.add_root(ident.range(), status);
     let mut scope = self.scopes.get(&self.cur_scope).unwrap().borrow_mut();
-    scope.variables.insert(ident.sym.clone(), ident.range());
+    scope
+      .variables
+      .entry(ident.sym.clone())
+      .or_default()
+      .push((ident.ctxt, ident.range()));
   }
 
   fn insert_vars(&mut self, idents: &[&Ident], status: VarStatus) {
